@@ -3,6 +3,8 @@
 package main
 
 import (
+	"errors"
+	"github.com/enbility/ship-go/model"
 	"flag"
 	"fmt"
 	"reflect"
@@ -239,6 +241,62 @@ func args(seq []hubx.Ev) []string {
 	return out
 }
 
+// c18ReportersBody: two connections of one SKI (the two halves of a double connection, or an ending connection and its
+// successor) report handshake states to the hub from their own goroutines at the same time. The hub is real, the
+// reports are made directly (the narrowest seam that reaches the bookkeeping of the notifications).
+func c18ReportersBody(sx, sy model.ShipMessageExchangeState, ex, ey bool) func() {
+	return func() {
+		simrt.ClearTraceHooks()
+		a := hubx.NewNode("A", 0, 4711)
+		b := hubx.NewNode("B", 1, 4712) // never started: only its SKI is used
+		a.Hub.RegisterRemoteSKI(b.SKI)
+		a.Start()
+		simrt.RunFor(10 * time.Millisecond)
+		mk := func(s model.ShipMessageExchangeState, withErr bool) model.ShipState {
+			st := model.ShipState{State: s}
+			if withErr {
+				st.Error = errors.New("handshake error")
+			}
+			return st
+		}
+		simrt.Mark()
+		simrt.Go("reporter-x", func() { a.Hub.HandleShipHandshakeStateUpdate(b.SKI, mk(sx, ex)) })
+		simrt.Go("reporter-y", func() { a.Hub.HandleShipHandshakeStateUpdate(b.SKI, mk(sy, ey)) })
+		simrt.RunFor(3 * time.Second)
+		seq := pairingSeq(a.App, b.SKI)
+		cur := a.Hub.PairingDetailForSki(b.SKI)
+		if len(seq) == 0 {
+			simrt.Fail("C18|never-notified", "two state reports, no pairing notification at all")
+		} else if last := seq[len(seq)-1]; last.Arg != fmt.Sprint(uint(cur.State())) {
+			simrt.Fail("C18|last-notification-stale", "two connections of one SKI reported %d and %d at the same time: the last pairing notification says state %s but PairingDetailForSki reports %d; delivered sequence %v", sx, sy, last.Arg, uint(cur.State()), args(seq))
+		}
+		simrt.Outcome(fmt.Sprintf("%v", args(seq)))
+	}
+}
+
+func c18ReporterScenarios(r *hx.Run) []hx.Scenario {
+	type rep struct {
+		s model.ShipMessageExchangeState
+		e bool
+	}
+	reps := []rep{{model.SmeHelloStatePendingListen, false}, {model.SmeHelloStateOk, false}, {model.SmeStateError, true}, {model.SmeStateComplete, false}, {model.SmeHelloStateRemoteAbortDone, false}}
+	pb := 2
+	if r.Thorough() {
+		pb = 3
+	}
+	var out []hx.Scenario
+	for i, x := range reps {
+		for j, y := range reps {
+			if i >= j {
+				continue
+			}
+			out = append(out, hx.Scenario{Name: fmt.Sprintf("c18:reporters:%d+%d", x.s, y.s), Body: c18ReportersBody(x.s, y.s, x.e, y.e), Bounds: simrt.B(pb, 0, 0),
+				Cfg: simrt.Config{MaxSteps: 100000, BranchAfterMark: true, BranchOnly: []string{"reporter", "HandleShipHandshakeStateUpdate"}}})
+		}
+	}
+	return out
+}
+
 func c18Scenarios(r *hx.Run) []hx.Scenario {
 	cfgs := []c18cfg{
 		{name: "success", bTrustsA: true, bWaits: true},
@@ -282,6 +340,7 @@ func c18Scenarios(r *hx.Run) []hx.Scenario {
 		out = append(out, hx.Scenario{Name: "c18:late-wakeups:" + c.name, Body: c18Body(c), Bounds: simrt.B(0, tb, 0),
 			Cfg: simrt.Config{MaxSteps: 100000, ArbitraryQuiescent: true, BranchOnly: []string{"HandleShipHandshakeStateUpdate"}, BranchNoStart: true}})
 	}
+	out = append(out, c18ReporterScenarios(r)...)
 	return out
 }
 
